@@ -36,22 +36,25 @@ def decoderNum (lsb : Bool) : NumMachine DecState where
 
 /-- A stream element with structured payloads behind packed numeric ports.
     inputs : [sink.valid, sink.data, sink.first, sink.last, source.ready]
-    outputs: [sink.ready, source.valid, source.data, source.first, source.last] -/
-def packedElem {α β σ : Type} [Repr σ] (e : Elem α β σ) (dec : Nat → α) (enc : β → Nat) : NumMachine σ where
+    outputs: [sink.ready, source.valid, source.data, source.first, source.last, busy…] -/
+def packedElem {α β σ : Type} [Repr σ] (e : Elem α β σ) (dec : Nat → α) (enc : β → Nat)
+    (busy : σ → List Bool) : NumMachine σ where
   init := e.init
   step s ins :=
     match ins with
     | [v, d, f, l, r] =>
       let i : In α := { valid := n2b v, tok := { data := dec d, first := n2b f, last := n2b l }, ready := n2b r }
       let o := e.out s i
-      some (e.step s i, [b2n o.ready, b2n o.valid, enc o.tok.data, b2n o.tok.first, b2n o.tok.last])
+      some (e.step s i, [b2n o.ready, b2n o.valid, enc o.tok.data, b2n o.tok.first, b2n o.tok.last] ++
+                        (busy s).map b2n)
     | _ => none
   key s := toString (repr s)
 
-def streamEncoderNum (n : Nat) := packedElem (streamEncoder n) (unpackSyms n) (packW 10)
-def streamDecoderNum (n : Nat) := packedElem (streamDecoder n) (unpackW 10 n) (packSyms n)
+def streamEncoderNum (n : Nat) := packedElem (streamEncoder n) (unpackSyms n) (packW 10) (fun s => [s.busy])
+def streamDecoderNum (n : Nat) := packedElem (streamDecoder n) (unpackW 10 n) (packSyms n) (fun s => [s.busy])
 def streamCodecNum (n : Nat) :=
   packedElem ((streamEncoder n).comp (streamDecoder n)) (unpackSyms n) (packSyms n)
+    (fun s => [s.1.busy, s.2.busy])
 
 def openMachine (args : List String) (hin hout : IO.FS.Stream) : Option (IO Bool) :=
   match args with
@@ -67,7 +70,8 @@ def openMachine (args : List String) (hin hout : IO.FS.Stream) : Option (IO Bool
 
 /-- Pure calls:
     `enc1 d k disp lsb`  → `output disp_out`   (SingleEncoder: stage 1 clocked with d,k; stage 2 on disp)
-    `dec1 input lsb`     → `d k invalid`       (Decoder one cycle after `input`) -/
+    `dec1 input lsb`     → `d k invalid`       (Decoder one cycle after `input`)
+    `ksyms`              → the 12 control symbols of `Sym.Valid` -/
 def call (args : List String) : Option String :=
   match args with
   | ["enc1", d, k, disp, lsb] =>
@@ -76,6 +80,7 @@ def call (args : List String) : Option String :=
       let r := encode1 (d % 256) (n2b k) (n2b disp)
       some s!"{fmt (n2b lsb) r.1} {b2n r.2}"
     | _, _, _, _ => none
+  | ["ksyms"] => some (showNats kList)
   | ["dec1", w, lsb] =>
     match w.toNat?, lsb.toNat? with
     | some w, some lsb =>
